@@ -1,6 +1,6 @@
 #!/bin/bash
 # run_all.sh [quick|thorough] : every claimed check (and the pseudo-property streams) against /repo, one summary line each
-cd /verif
+cd "$(dirname "$0")/.."
 T=${1:-quick}
 for P in $(python3 -c "import sys; sys.path.insert(0,'tools'); import propcfg; print(' '.join(sorted(propcfg.PROPS)))"); do
   echo "== $P $(./check $P $T 2>&1 | grep -E 'VIOLATION|^OK|^error|Error' | cut -c1-200 | head -3 | tr '\n' ' ')"
